@@ -1,0 +1,25 @@
+//go:build verif
+
+package cmd
+
+import (
+	v2 "github.com/hydraide/hydraide/app/core/hydra/swamp/chronicler/v2"
+)
+
+// This file is compiled only with -tags verif. It exposes two unexported
+// single-file workers of hydraidectl to the verification harness (properties
+// C03 and C29) without changing any existing line.
+
+// VerifMigrateFileV2Format runs what "hydraidectl migrate v2-migrate-format"
+// runs for one .hyd file (migrateFileV2Format): a legacy V2-format file is
+// rewritten with the swamp name embedded after the header, a file that already
+// has the embedded name is left alone.
+func VerifMigrateFileV2Format(filePath string) (oldSize, newSize int64, needsUpgrade bool, err error) {
+	return migrateFileV2Format(filePath)
+}
+
+// VerifCompactSwamp runs what "hydraidectl compact" runs for one .hyd file
+// (compactSwamp) with the given fragmentation threshold.
+func VerifCompactSwamp(filePath string, threshold float64) *v2.CompactionResult {
+	return compactSwamp(filePath, threshold)
+}
